@@ -240,6 +240,12 @@ class ReadOnlyFieldArray:
         return self._dataset.dtype
 
     def __getitem__(self, item):
+        if isinstance(item, slice) and item.step is not None and item.step < 0:
+            # h5py refuses a negative step: read the same rows in ascending order, then reverse them
+            rows = range(*item.indices(len(self._dataset)))
+            if len(rows) == 0:
+                return self._dataset[0:0]
+            return self._dataset[rows[-1]:rows[0] + 1:-rows.step][::-1]
         return self._dataset[item]
 
     def __setitem__(self, key, value):
@@ -300,6 +306,12 @@ class WriteableFieldArray:
         return self._dataset.dtype
 
     def __getitem__(self, item):
+        if isinstance(item, slice) and item.step is not None and item.step < 0:
+            # h5py refuses a negative step: read the same rows in ascending order, then reverse them
+            rows = range(*item.indices(len(self._dataset)))
+            if len(rows) == 0:
+                return self._dataset[0:0]
+            return self._dataset[rows[-1]:rows[0] + 1:-rows.step][::-1]
         return self._dataset[item]
 
     def __setitem__(self, key, value):
